@@ -186,7 +186,7 @@ void lem_normalize(void) {
     V_END();
 }
 /* LEM-capacity (2-safety on buffer capacity): from an arbitrary writer state in its invariant that already holds 0..3 pre-carry
- * entries, one boolean followed by svt_od_ec_enc_done produces the same bytes whether the buffers are roomy (no growth) or
+ * entries, one boolean (-DCAP_STEP) or svt_od_ec_enc_done produces the same state / bytes whether the buffers are roomy (no growth) or
  * tight (TIGHT entries: the pre-carry buffer grows in od_ec_enc_normalize and/or svt_od_ec_enc_done while holding output,
  * the byte buffer grows in svt_od_ec_enc_done). */
 #ifndef TIGHT
@@ -207,14 +207,23 @@ void lem_capacity(void) {
     int16_t cnt = (int16_t)vin_range(-9, -1); uint16_t rng = (uint16_t)vin_range(32768, 65535); OdEcWindow low = (OdEcWindow)vin32();
     V_ASSUME(((uint64_t)low >> (cnt + 25)) == 0);
     cap_state(&a, 64, offs, ent, cnt, rng, low); cap_state(&b, TIGHT, offs, ent, cnt, rng, low);
+#ifdef CAP_STEP
+    /* one writer step (growth inside od_ec_enc_normalize): the whole writer state and every stored entry agree */
     int val = vinbool(); unsigned f = (unsigned)vin_range(1, 32767);
     svt_od_ec_encode_bool_q15(&a, val, f); svt_od_ec_encode_bool_q15(&b, val, f);
+    V_ASSERT(a.error == 0 && b.error == 0, "no error without allocation failure");
+    V_ASSERT(a.offs == b.offs && a.low == b.low && a.rng == b.rng && a.cnt == b.cnt, "writer registers do not depend on the buffer capacity");
+    V_ASSERT(b.precarry_storage >= b.offs, "entries stored inside the (grown) buffer");
+    for (uint32_t i = 0; i < TIGHT + 2; i++) if (i < a.offs && i < b.offs) V_ASSERT(a.precarry_buf[i] == b.precarry_buf[i], "pre-carry entries (old and new) do not depend on the buffer capacity: output held in the buffer survives its growth");
+#else
+    /* termination (growth inside svt_od_ec_enc_done): the emitted bytes agree */
     uint32_t na = 0, nb = 0;
     uint8_t *da = svt_od_ec_enc_done(&a, &na), *db = svt_od_ec_enc_done(&b, &nb);
     V_ASSERT(da != NULL && db != NULL, "writer finishes without error");
     V_ASSERT(na == nb, "number of bytes emitted does not depend on the buffer capacity");
-    for (uint32_t i = 0; i < 8; i++) if (i < na && i < nb) V_ASSERT(da[i] == db[i], "bytes emitted do not depend on the buffer capacity (output held in the buffers survives their growth)");
-    V_ASSERT(na <= 8, "at most 3 stored + 2 + 2 bytes");
+    for (uint32_t i = 0; i < 6; i++) if (i < na && i < nb) V_ASSERT(da[i] == db[i], "bytes emitted do not depend on the buffer capacity (output held in the buffers survives their growth)");
+    V_ASSERT(na <= 6, "at most 3 stored + 3 flushed bytes");
+#endif
     V_END();
 }
 #ifndef VERIF_CBMC
